@@ -4,7 +4,7 @@
    NOT proved (modelled): that torch.normal returns i.i.d. N(0, std^2) values from fresh generator state;
    the distributional reading of the ledger rests on that assumption (DESIGN.md section 6). *)
 From Coq Require Import ZArith Reals List Bool.
-From OV Require Import Base.Num Base.NumR Base.Py Model.OptimState Model.OptimRef Gen.Optim
+From OV Require Import Base.Num Base.NumR Base.Py Model.OptimState Model.OptimRef Gen.Optim Gen.Engine
   Proofs.OptimSM Proofs.OptimEq Proofs.OptimTrace Proofs.OptimMore Proofs.NoiseP.
 Import ListNotations.
 
@@ -69,6 +69,17 @@ Theorem C04_ddp_noise_rank0 {T} {N : Num T} (super_add_noise : ost T -> sres (os
   (o_rank s = 0)%Z -> ddp_add_noise super_add_noise s = sbind (super_add_noise s) (fun s _ => SOk s tt).
 Proof. exact (ddp_noise_rank0 super_add_noise s). Qed.
 
+(* which generator draws the noise (generated from PrivacyEngine._prepare_optimizer / make_private): the secure generator in secure mode
+   -- a user generator is then refused --, otherwise the user's generator if one is given, otherwise torch's global generator *)
+Theorem C04_generator_selection {G : Type} (secure : bool) (secure_rng user : option G) :
+  (secure = true -> engine_noise_generator secure secure_rng user = secure_rng) /\
+  (secure = false -> engine_noise_generator secure secure_rng user = user) /\
+  (secure = true -> user <> None -> engine_generator_guard secure user = Err ValueError) /\
+  (secure = false -> engine_generator_guard secure user = Ok tt).
+Proof.
+  repeat split; intros; subst; unfold engine_noise_generator, engine_generator_guard; destruct user; try reflexivity; try contradiction.
+Qed.
+
 Print Assumptions C04_add_noise_ledger.
 Print Assumptions C04_noise_positions_fresh.
 Print Assumptions C04_skipped_step_draws_nothing.
@@ -77,3 +88,4 @@ Print Assumptions C04_zero_std_no_noise.
 Print Assumptions C04_secure_mode_variance.
 Print Assumptions C04_ddp_noise_rank0_only.
 Print Assumptions C04_ddp_noise_rank0.
+Print Assumptions C04_generator_selection.
